@@ -52,6 +52,12 @@ def stepD (st : St) : List String → St × String
   | ["restorerng"] =>
     let put (p : Proc) : Proc := { p with glob := upd p.glob gRng st.savedRng }
     ({ st with main := put st.main, solo := put st.solo }, "ok")
+  | ["new", i, cfg, nmne, io, rng, sched, var, build] =>
+    match i.toNat?, cfg.toInt?, nmne.toInt?, io.toInt?, rng.toInt?, sched.toInt?, var.toInt?, build.toInt? with
+    | some i, some cfg, some nmne, some io, some rng, some sched, some var, some build =>
+      let put (p : Proc) : Proc := { p with inst := fun j => if j = i then initInst cfg nmne io rng sched var build else p.inst j }
+      ({ st with main := put st.main, solo := put st.solo }, "ok")
+    | _, _, _, _, _, _, _, _ => (st, "bad-op")
   | ["ev", i, kind, arg] =>
     let pa : Option (List Cmd × Val) :=
       match callNamed kind, seedArg arg with
